@@ -58,9 +58,11 @@ def verdictSignal (sig : Nat) (o : IObs) : Option String :=
       else if o.outcome == "ok" || o.outcome.startsWith "err:" then none
       else some "C07/unparsable-observation"
     | none =>
+      -- a request the server never started to handle: refused, or (the listener being kept alive by a caller
+      -- who holds on to the completed future) never connected
       if o.outcome == "ok" then some "C01/response-without-request"
-      else if o.outcome.startsWith "err:" then none
-      else some "C07/request-never-resolved"
+      else if o.outcome.startsWith "err:" || o.outcome == "timeout" then none
+      else some "C07/unparsable-observation"
 
 /-- scenarios with a signal: `e2e <buf> <pool> <tls> <sig> ; <req> ; … | <id>=<outcome>/<calls>/<flag>/<started> … srv=<ok>/<n>` -/
 def signalLine (sig : Nat) (rs : List (List String)) (obs : List String) : Bool × Bool × String × String :=
